@@ -215,7 +215,11 @@ func VerifC18StreamReplay(v *vrt.T) {
 	// without a timestamp and replayed with the zero Time again (recorded-time mode).
 	tc := v.Choose("times", 5)
 	t1 := time.Unix(0, []int64{verifC18Base, 1, verifT1960 - 1, verifC18Base, verifC18Base}[tc]).UTC()
-	sent := []edge.PointMessage{edge.NewPointMessage(name, db, rp, models.Dimensions{}, fields, models.Tags{tagk: tagv}, t1)}
+	tags := models.Tags{tagk: tagv}
+	if where != 1 && where != 2 && v.Choose("point without tags", 2) == 1 {
+		tags = models.Tags{}
+	}
+	sent := []edge.PointMessage{edge.NewPointMessage(name, db, rp, models.Dimensions{}, fields, tags, t1)}
 	if v.Bound("points", 2) > 1 {
 		t2 := t1.Add([]time.Duration{time.Second + 1, 0, 1, -10 * time.Second, 0}[tc])
 		if tc == 4 {
